@@ -240,11 +240,28 @@ pub fn run(ctx: &mut Ctx) {
                 Some(RefCfList::Type1([0x00, 0x03, 0, 0, 0, 0, 0, 0, 0x02])),
                 Some(RefCfList::Raw([0x5A; 16])),
             ];
+            // every single sub-band, and every pair of adjacent 125 kHz channels, as the only enabled ones
+            let mut cfs = cfs;
+            if reg.fixed() {
+                for b in 0..8usize {
+                    let mut m = [0u8; 9];
+                    m[b] = 0xFF;
+                    m[8] = 1 << b;
+                    cfs.push(Some(RefCfList::Type1(m)));
+                    let mut m = [0u8; 9];
+                    m[b] = 0xC0;
+                    cfs.push(Some(RefCfList::Type1(m)));
+                    let mut m = [0u8; 9];
+                    m[b] = 0x01;
+                    m[(b + 3) % 8] |= 0x10;
+                    cfs.push(Some(RefCfList::Type1(m)));
+                }
+            }
             for front in [FrontKind::Async, FrontKind::Nb] {
                 for dl in 0..=255u8 {
                     for rxd in 0..16u8 {
                         k += 1;
-                        if k % n != ti || (!thorough && (dl as usize + rxd as usize * 7) % 4 != 0) {
+                        if k % n != ti || (!thorough && (dl as usize + rxd as usize * 7) % 2 != 0) {
                             continue;
                         }
                         let cf = cfs[(dl as usize + rxd as usize * 3) % cfs.len()].clone();
@@ -261,7 +278,7 @@ pub fn run(ctx: &mut Ctx) {
         }
     });
     // (2) random
-    let cases = ctx.tier.pick(30_000u32, 600_000);
+    let cases = ctx.tier.pick(150_000u32, 1_000_000);
     let nthreads = ctx.threads as u32;
     ctx.parallel(|ti, _n, st| {
         let f = run_proptest(history_strategy(), cases / nthreads + 1, seed ^ 0xC11B ^ ((ti as u64) << 36), st, |h, st| run_one(h, st, "random-history"));
